@@ -270,9 +270,9 @@ func runC02(tier string, _ []string) int {
 	vlib.SetPortBlock(2)
 	c.SetRule("per scenario a downstream instance (real Sync client, period 1 s) linked to a bare upstream instance; a PRNG history of 6-25 acknowledged steps over {node-point write, edge-point write, create node, delete, undelete} x {downstream, upstream} x nodes inside the device subtree (nested groups), interleaved with link loss (sync node disabled), recovery, upstream restarts on the same file (also in two steps: the bus first, the store later, so that the downstream's reconnect and first catch-up attempt find a bus nobody answers on) restarts of the downstream instance itself, and writes placed *inside* a catch-up pass (performed from the sync.afterLocalFetch / afterRemoteFetch / beforeChildren hook sites in the sync client's own goroutine, aimed at the node the pass is comparing), always followed by a fixed list of corner scenarios (both sides write one identity during an outage; create upstream / downstream during an outage; delete downstream / upstream during an outage; delete + undelete; nested create under a node created during the outage). After the last write the link is up; catch-up passes are counted passively (nodes.all.<device> requests on the downstream bus) and after each pass both device subtrees are walked (deleted included) and compared: placements, newest point per identity of every node and edge. Convergence is demanded within 10 passes and must then hold on two consecutive walks; the agreed value of every identity the harness wrote must be at least as new as the newest acknowledged write on either side, and anything newer must have been seen on a bus. distinct = (set of operation kinds performed during outages, passes needed)")
 	c.Assume("the device's own top edge upstream is not compared (deliberately not synchronised); origins are not compared (whole-node transfer stamps the sync node as origin); binary data and tombstone counts are; equal timestamps on one identity are not generated")
-	nScen := c.N(18, 144)
+	nScen := c.N(19, 152)
 	wd := c.NewWatchdog()
-	corners := []string{"both-write-same-identity", "create-upstream", "create-downstream", "delete-downstream", "delete-upstream", "delete-undelete-downstream", "nested-create-downstream", "nested-create-upstream", "upstream-restart", "mid-pass", "upstream-restart-store-late", "edge-point-upstream", "downstream-restart", "glued-identities", "glued-identities", "late-delivery", "late-delivery", "random"}
+	corners := []string{"both-write-same-identity", "create-upstream", "create-downstream", "delete-downstream", "delete-upstream", "delete-undelete-downstream", "nested-create-downstream", "nested-create-upstream", "upstream-restart", "mid-pass", "upstream-restart-store-late", "edge-point-upstream", "downstream-restart", "glued-identities", "glued-identities", "late-delivery", "late-delivery", "same-content-rewritten", "random"}
 	vlib.Parallel(nScen, 4, func(i int) {
 		r := vlib.NewR(c.Seed, "c02", i)
 		s := &syncCase{c: c, wd: wd, i: i, r: r, clock: 1750000000e9, tapped: map[string]bool{}, outage: map[string]bool{}, history: map[string]bool{}}
@@ -411,6 +411,7 @@ func runC02(tier string, _ []string) int {
 			mark("create@" + side)
 			return n, nil
 		}
+		lastContent := map[string]data.Point{}
 		nodeWrite := func(side string, n *syncNodeRec) error {
 			mark("write@" + side)
 			// (identities whose type+key strings coincide when glued together are included: v/10, v1/0, v1/"")
@@ -425,6 +426,16 @@ func runC02(tier string, _ []string) int {
 			if r.Chance(0.1) {
 				p.Tombstone = []int{1, 2, 3}[r.Intn(3)]
 			}
+			// one write in six repeats what was written to this identity last, with a newer time
+			ik := n.ID + "|" + typ + "|" + key
+			if key == "" {
+				ik = n.ID + "|" + typ + "|0"
+			}
+			if prev, ok := lastContent[ik]; ok && r.Chance(0.17) {
+				prev.Time = p.Time
+				p = prev
+			}
+			lastContent[ik] = p
 			return s.write(side, false, n.ID, "", p)
 		}
 		// a delivery that comes late: older than what the identity already holds (on this side), with another
@@ -646,6 +657,28 @@ func runC02(tier string, _ []string) int {
 					side := []string{"D", "U"}[k%2]
 					mark("write@" + side)
 					step(s.write(side, false, v1.ID, "", data.Point{Type: "value", Time: s.now(), Value: float64(100 + k), Origin: "harness"}))
+				}
+			case "same-content-rewritten":
+				// an identity holds a value on both sides; during an outage the upstream writes another value and,
+				// later, the downstream writes the old value again (same value, text and origin, newer time):
+				// that is the newest write, and it is what both sides must end with
+				p := data.Point{Type: "value", Key: []string{"", "1"}[r.Intn(2)], Time: s.now(), Value: float64(5 + r.Intn(3)), Text: []string{"", "same"}[r.Intn(2)], Origin: "harness"}
+				mark("write@D")
+				step(s.write("D", false, v1.ID, "", p))
+				if scErr == nil {
+					barrier()
+				}
+				step(setLink(false))
+				q := p
+				q.Time, q.Value = s.now(), p.Value+2
+				mark("write@U")
+				step(s.write("U", false, v1.ID, "", q))
+				p.Time = s.now()
+				mark("write@D")
+				step(s.write("D", false, v1.ID, "", p))
+				if r.Chance(0.5) && step(nil) {
+					p.Time = s.now()
+					step(s.write("D", false, v1.ID, "", p))
 				}
 			case "create-upstream":
 				step(setLink(false))
